@@ -222,6 +222,7 @@ fn f32_text(rng: &mut Rng) -> (f32, String) {
         4 => f32::MIN_POSITIVE,
         5 => f32::from_bits(1 + rng.below(1000) as u32),
         6 => rng.range(-100000, 100000) as f32 / 100.0,
+        7 if rng.chance(1, 4) => *rng.pick(&[f32::INFINITY, f32::NEG_INFINITY]),
         _ => {
             let f = f32::from_bits(rng.next() as u32);
             if f.is_finite() {
@@ -316,7 +317,7 @@ pub fn generate_tools(sink: &mut Sink, seed: u64, thorough: bool) {
             .collect();
         if got.len() != expect.len() {
             sink.fail("C20", "tools/xyz-count", &case_id, &format!("{} points in, {} points out", expect.len(), got.len()));
-        } else if let Some(k) = (0..got.len()).find(|k| got[*k].0.iter().zip(expect[*k].0.iter()).any(|(a, b)| a != b)) {
+        } else if let Some(k) = (0..got.len()).find(|k| got[*k].0.iter().zip(expect[*k].0.iter()).any(|(a, b)| a.to_bits() != b.to_bits())) {
             sink.fail("C20", "tools/xyz-coordinates", &case_id, &format!("point {k}: {:?} became {:?}", expect[k].0, got[k].0));
         } else if let Some(k) = (0..got.len()).find(|k| got[*k].1 != expect[*k].1) {
             sink.fail("C20", "tools/xyz-colour", &case_id, &format!("point {k}: colour {:?} became {:?}", expect[k].1, got[k].1));
